@@ -6,7 +6,7 @@ plus exactly the precondition the dispatcher establishes, runs ONE real step and
 out-of-bounds slice (Kani's built-in checks on the compiled code), invariant afterwards, strict progress of the cursor (=> the
 measure len - bufpos decreases => termination), error line within 1..=number of lines.
 """
-from vlib.core import Harness
+from vlib.core import Harness, E2Spec
 
 
 def lex(tier, macro, fn, n, extra_unw=3, timeout=None, claim='', role='main', suffix='', unwindset=None):
@@ -52,22 +52,27 @@ def build(tier, known):
                   claim='cross-check of the contracts: whole dispatcher un-stubbed incl. comment-end scan and skip loop: no panic/overflow/out-of-bounds; returned and error line within 1..=lines; invariant afterwards; a token other than the deferred end token consumes input; EndOfFile only at the end of the input'))
     # ---- parser kernels ----
     hs.append(par(tier, 'h_par_trim_total', 'trim_byte_string', 8 if q else 12, (8 if q else 12) + 2))
-    nu = 4 if q else 5
-    for strict in ('true', 'false'):
-        hs.append(par(tier, 'h_par_unescape_total', 'ArxmlParser::unescape_string', nu, nu + 3, suffix='_strict' if strict == 'true' else '_lenient', args=f', {strict}',
-                      bound=f'all ASCII strings of length <= {nu} ({"strict" if strict == "true" else "lenient"} mode); symbolic current line L in a document of T lines; unwind {nu + 3}',
-                      claim='no panic/overflow/out-of-bounds while decoding entities and character references; every error and warning names a line in 1..=T'))
-    tm = [('dec', 'b"&#"', 2, 'b";"'), ('hex', 'b"&#x"', 2, 'b";"')]
-    if not q:
-        tm += [('dec3', 'b"a&#"', 3, 'b";b"'), ('hex3', 'b"&#x"', 3, 'b";"'), ('named', 'b"&"', 3, 'b";"')]
-    for tag, pre, holes, post in tm:
-        for strict in ('true', 'false'):
-            name = f'h_c02_unescape_tmpl_{tag}_{"strict" if strict == "true" else "lenient"}'
-            hs.append(Harness(name, 'data', 'parser.rs', f'h_par_unescape_tmpl_total!({name}, {pre}, {holes}, {post}, 12, {strict});',
-                              functions=['parser::ArxmlParser::unescape_string'],
-                              bound=f'skeleton {pre} + {holes} symbolic ASCII bytes + {post} ({"strict" if strict == "true" else "lenient"}); unwind 12',
-                              claim='no panic/overflow/out-of-bounds on the character-reference paths (u32 parsing, char::from_u32, UTF-8 encoding); error line within 1..=T',
-                              timeout=420 if q else 3600))
+    # ---- parser value kernels through engine E2 (String-building code is out of CBMC's reach, DESIGN.md section 3) ----
+    hs.append(Harness('n_c02_value_total', 'data', 'parser.rs', '', functions=[], bound='', claim='', role='native'))
+    FUNCS = ['parser::ArxmlParser::parse_character_data', 'parser::trim_byte_string', 'parser::ArxmlParser::unescape_string',
+             'parser::ArxmlParser::check_version', 'parser::ArxmlParser::optional_error', 'parser::ArxmlParser::error']
+    cfgs = []
+    for strict in (True, False):
+        for n in range(0, (5 if q else 7) + 1):
+            cfgs.append(('string_ascii', dict(n=n, kind='string', preserve=False, strict=strict, ascii_only=True), 'all ASCII texts'))
+        for n in range(0, (3 if q else 4) + 1):
+            cfgs.append(('string_bytes', dict(n=n, kind='string', preserve=True, max_length=2, strict=strict, ascii_only=False), 'ALL byte strings (incl. invalid UTF-8)'))
+            cfgs.append(('pattern_bytes', dict(n=n, kind='pattern', max_length=2, strict=strict, ascii_only=False), 'ALL byte strings; validator uninterpreted'))
+            cfgs.append(('uint_bytes', dict(n=n, kind='uint', strict=strict, ascii_only=False), 'ALL byte strings'))
+            cfgs.append(('float_bytes', dict(n=n, kind='float', strict=strict, ascii_only=False), 'ALL byte strings; f64 parsing uninterpreted'))
+            cfgs.append(('enum_bytes', dict(n=n, kind='enum', strict=strict, ascii_only=False), 'ALL byte strings; item lookup uninterpreted; symbolic 2-row table'))
+    for tag, params, dom in cfgs:
+        n = params['n']
+        name = f'e2_c02_{tag}_{"strict" if params["strict"] else "lenient"}_n{n}'
+        hs.append(E2Spec(name, 'C02ValueTotal', params, functions=FUNCS,
+                         bound=f'{dom} of length exactly {n}; {"strict" if params["strict"] else "lenient"} parser; symbolic current line L in a document of T lines; every feasible MIR path explored',
+                         claim='no panic (failed MIR assert: arithmetic overflow, index out of bounds; slice/str index; unwrap) on any path; every error and warning names a line in 1..=T',
+                         native=('data', 'n_c02_value_total'), parts=(16 if n >= 6 else (8 if n >= 4 else 1)), timeout=900 if q else 7200))
     info = dict(
         assumptions=[
             'tokenizer steps are decided from an arbitrary state satisfying the stated representation invariant (inductive step); the invariant holds initially (ArxmlLexer::new: cursor 0 or 3, line 1, no deferred token)',
